@@ -29,7 +29,7 @@ def make_expr(ch, params):
         ps = m.func_type(fi)[0]
         for _ in range(params.get('nargs', 12) if ps else 1):
             script.append(('call', 0, e, gen.gen_args(ch, ps)))
-    return m, script, {'nontrivial_fn': f1.hazards_nontrivial, 'ninst': 1}
+    return m, script, {'nontrivial_fn': f1.hazards_nontrivial, 'ninst': 1, 'independent': True}
 
 
 def plan(tier, seed):
